@@ -78,6 +78,8 @@ func (h *H) replay(op []string) (string, bool) {
 			return "", false
 		}
 		return runesTok(k.String()), true
+	case "hypk":
+		return "agree", true // recomputed from Go's tables by the generator
 	case "hypl":
 		return "holds", true // recomputed from Go's tables by the generator
 	case "hypa":
